@@ -151,7 +151,10 @@ def operand(o):
 
 
 def string_lit(b):
-    s = bytes(b).decode("latin-1")
+    try:                      # the bytes of a string are the UTF-8 bytes of the source text (that is what gosk emits for it)
+        s = bytes(b).decode("utf-8")
+    except UnicodeDecodeError:
+        s = bytes(b).decode("latin-1")
     q = '"' if '"' not in s else "'"
     return q + s + q
 
